@@ -55,6 +55,14 @@ pub fn classify(case: &Case, prog: &Prog, cx: &mut Cx) {
     cx.class_if(st.hops_carry > 0, "thread-hop-carried-frame");
     cx.class_if(st.hops_bare > 0, "thread-hop-no-frame");
     cx.class_if(st.hops_future > 0, "thread-hop-in-future");
+    cx.class_if(st.exit_panic_sync_call, "exit:panic-sync-call");
+    cx.class_if(st.exit_panic_enter_guard, "exit:panic-enter-guard");
+    cx.class_if(st.exit_panic_async, "exit:panic-async");
+    cx.class_if(st.exit_panic_disabled_span, "exit:panic-disabled-span");
+    cx.class_if(st.exit_panic_caught_on_far_thread, "exit:panic-caught-on-far-thread");
+    cx.class_if(st.after_panic_sibling_span, "after-panic:sibling-span");
+    cx.class_if(st.after_panic_event_in_enclosing_span, "after-panic:event-in-enclosing-span");
+    cx.class_if(st.after_panic_new_root_trace, "after-panic:new-root-trace");
     cx.class_if(st.handoffs > 0, "own-frame-handoff");
     cx.class_if(st.handoff_enabled_with_descendants, "own-frame-handoff-enabled-with-descendants");
     cx.class_if(st.handoff_disabled_with_descendants, "own-frame-handoff-disabled-with-descendants");
@@ -122,6 +130,11 @@ pub fn judge(case: &Case, prog: &Prog, recs: &[Rec], obs: &[Obs], cx: &mut Cx) -
         let got = span_recs.get(&n).map(|v| v.as_slice()).unwrap_or(&[]);
         if !info.enabled {
             vassert!(cx, got.is_empty(), "disabled-span-emitted", "node {n} is rejected by the filter but {} span event(s) were emitted", got.len());
+            continue;
+        }
+        if info.unwinds && got.is_empty() {
+            // left by a planned panic: whether it completes is C05's business; if it is emitted, with the right ids
+            cx.dont_care();
             continue;
         }
         vassert!(cx, !got.is_empty(), "span-event-missing", "enabled node {n} ({:?}) emitted no span event", info.form);
